@@ -1,6 +1,7 @@
 package obj
 
 import (
+	"fmt"
 	"reflect"
 
 	"github.com/polydawn/refmt/obj/atlas"
@@ -78,6 +79,11 @@ func (mach *unmarshalMachineUnionKeyed) step_acceptKey(driver *Unmarshaller, sla
 		mach.tmp_rv = reflect.New(delegateAtlasEnt.Type).Elem()
 		// Get and configure a machine for the delegation.
 		delegate := _yieldUnmarshalMachinePtrForAtlasEntry(slab.tip(), delegateAtlasEnt, slab.atlas)
+		if delegate == UnmarshalMachine(mach) {
+			// The member is itself a keyed union and would be served by this very machine (it lives in
+			// the same slab row): it would become its own delegate.  Refuse.
+			return true, fmt.Errorf("unsupported: member %q of the union for %v is itself a union", tok.Str, mach.target_rt)
+		}
 		if err := delegate.Reset(slab, mach.tmp_rv, delegateAtlasEnt.Type); err != nil {
 			return true, err
 		}
